@@ -375,6 +375,8 @@ def configs(tier):
                     for cc in (False, True):
                         if n >= 4 and cc and mode not in ('raise_cancel', 'return_exc'):
                             continue
+                        if tier == 'quick' and n >= 3 and cc and sum(k for _, k in pfs) > 1:
+                            continue  # the expensive family; thorough has all of it
                         cfg = (mode, P, pfs, cc)
                         if cfg not in seen:
                             seen.add(cfg)
@@ -438,7 +440,8 @@ def check(tier, seed, procs):
         'executions_by_feature': dict(sorted(cnt.items())),
         'deviation_bound': 'unbounded (every order of task steps; asyncio callbacks FIFO; state-hash pruned)',
         'bounds': ('modes ' + '/'.join(MODES) + '; ' +
-                   ('2-3 partial functions, each returns|raises after 0..1 yields; parallelism 1-2; caller cancelled at any step or not'
+                   ('2-3 partial functions, each returns|raises after 0..1 yields; parallelism 1-2; caller cancelled at any step or not '
+                    '(with 3 partial functions and a cancelled caller: at most one yield in total)'
                     if tier == 'quick' else
                     '2 pfs (returns|raises|raises CancelledError after 0..2 yields), 3 pfs (same kinds, 0..1 yields; returns|raises, 0..2 yields), '
                     '4 pfs (returns|raises, 0..1 yields, <=2 failing; caller cancellation only for cancel_on_error and return_exceptions modes); '
